@@ -326,7 +326,14 @@ pub fn gen_json(r: &mut Rng, depth: u32) -> Value {
             let mut m = serde_json::Map::new();
             for _ in 0..n {
                 // nested members may be named like registered claims (only top-level names are reserved)
-                let k = if r.chance(1, 6) { (*r.pick(&RESERVED)).to_string() } else { gen_key(r) };
+                let k = if r.chance(1, 6) {
+                    (*r.pick(&RESERVED)).to_string()
+                } else if r.chance(1, 12) {
+                    // (the empty member name is legal JSON; only an empty TOP-LEVEL claim key is ignored)
+                    String::new()
+                } else {
+                    gen_key(r)
+                };
                 m.insert(k, gen_json(r, depth - 1));
             }
             Value::Object(m)
